@@ -3,6 +3,7 @@ contract of the kernels they call (proved under C02 when that is claimed)."""
 from dvc.contracts import contract
 import specs.layout  # noqa: F401
 import specs.dtwspec  # noqa: F401
+from contracts import gens
 
 E = 'EffBlock(block, nb_series_r, nb_series_c)'
 
@@ -19,7 +20,7 @@ for name, nd in (('dtw_distance', False), ('dtw_distance_ndim', True)):
                   'length(s2) - off(s2) >= l2 * %s' % ('ndim' if nd else '1'),
                   'settings.psi_1b <= l1', 'settings.psi_1e <= l1', 'settings.psi_2b <= l2', 'settings.psi_2e <= l2']
         + SETTINGS_OK + (['ndim >= 1'] if nd else []),
-        ensures=['result == DTWC(s1, l1, s2, l2, %s, settings)' % ('ndim' if nd else '1')],
+        ensures=['result == DTWCnd(s1, l1, s2, l2, ndim, settings)' if nd else 'result == DTWC(s1, l1, s2, l2, settings)'],
         returns='val',
         trusted=True,
         props=('C02',),
@@ -41,6 +42,7 @@ contract(
               'DecodableBlock(block, nb_series_r, nb_series_c)'],
     ensures=['result == Len(%s, 0)' % E],
     loops=_LEN_LOOPS,
+    replay=gens.gen_length,
     hints={18: ['pure:2 * length == nb_series_r * (nb_series_r - 1)'],
            20: ['pure:2 * length == nb_series_r * (nb_series_r - 1)'],
            26: ['pure:2 * length == nb_series_c * (nb_series_c - 1)'],
@@ -115,7 +117,10 @@ def _distances(name, kind, nd):
         params.append(('ndim', 'int'))
         req.append('1 <= ndim <= 2**10')
     params += [('output', 'cptr:val'), ('block', ('cstruct', 'DTWBlock')), ('settings', ('cstruct', 'DTWSettings'))]
-    dtw = lambda r, c: 'DTWC(%s, %s, %s, %s, %s, settings)' % (row(r), rlen(r), col(c), clen(c), nd_s)
+    if nd:
+        dtw = lambda r, c: 'DTWCnd(%s, %s, %s, %s, ndim, settings)' % (row(r), rlen(r), col(c), clen(c))
+    else:
+        dtw = lambda r, c: 'DTWC(%s, %s, %s, %s, settings)' % (row(r), rlen(r), col(c), clen(c))
     pairs = ('forall(lambda r2, c2: implies(T2(r2, c2) and Sel(E, 0, r2, c2) and {cond}, '
              'output[Rank(E, 0, r2, c2)] == ' + dtw('r2', 'c2') + '))')
     frame = 'forall(lambda k: implies(k < 0 or k >= {hi}, output[k] == old(output[k])))'
@@ -148,6 +153,7 @@ def _distances(name, kind, nd):
                     variant='block.ce - c + 1 + (cb - c if c < cb else 0)'),
         },
         returns='int',
+        replay=gens.gen_distances(kind, nd),
         theories=('layout',),
         lemmas=LAYOUT_LEMMAS,
         props=('C06', 'C08', 'C20', 'C07'),
